@@ -4,7 +4,7 @@ KEYS['keepclient_c12'] = {'pkg': 'sdk/go/keepclient'}
 KEYS['keepbalance_c12'] = {'pkg': 'services/keep-balance'}
 
 CHECKS['C12'] = {
-    'ready': False,
+    'ready': True,
     'level': 'exploration',
     'rule': 'a case = service set of 1-32 services (27-character UUIDs with arbitrary 12-char prefixes, other-length/arbitrary-string UUIDs, or mixed; '
             'pairwise distinct weight keys) x block hash x one removed and one added service x locator with 0-4 hints (+K@ 5-char, +K@ known/unknown '
